@@ -218,13 +218,25 @@ def run_case_files(outdir, files, timeout=900):
         body = m.group(1).strip()
         if not body:
             return (f, [], "")
-        idx = [int(re.sub(r"%N", "", x).strip()) for x in body.split(";") if x.strip()]
+        idx = []
+        for x in body.split(";"):
+            nums = [int(n) for n in re.findall(r"\d+", x)]
+            if nums:
+                idx.append(nums[0] if len(nums) == 1 else tuple(nums))
         return (f, idx, "")
     with ThreadPoolExecutor(max_workers=NCPU) as ex:
         return list(ex.map(one, files))
 
 def case_text(outdir, f, idx):
-    """The idx-th case line of a case file."""
+    """The idx-th case line of a case file (for (case, step) pairs: the step of a multi-line case)."""
+    if isinstance(idx, tuple):
+        try:
+            src = open(os.path.join(outdir, f)).read()
+            case = src.split("BCase ")[1:][idx[0]]
+            steps = case.split("BStep ")[1:]
+            return "case %d step %d: ... %s" % (idx[0], idx[1], " | ".join(" ".join(x.split())[:400] for x in steps[max(0, idx[1] - 3):idx[1] + 1]))
+        except Exception:
+            return "case %s" % (idx,)
     lines = [l.strip().rstrip(";") for l in open(os.path.join(outdir, f)).read().split("Definition cases := [\n", 1)[1].split("\n].", 1)[0].splitlines()]
     return lines[idx] if idx < len(lines) else "?"
 
